@@ -3,9 +3,12 @@ use crate::runner::Property;
 pub mod c07;
 pub mod c08;
 pub mod c09;
+pub mod c15;
+pub mod c19;
+pub mod c20;
 
 pub fn all_ids() -> Vec<&'static str> {
-    vec!["C07", "C08", "C09"]
+    vec!["C07", "C08", "C09", "C15", "C19", "C20"]
 }
 
 pub fn get(id: &str) -> Option<Property> {
@@ -13,6 +16,9 @@ pub fn get(id: &str) -> Option<Property> {
         "C07" => Some(c07::property()),
         "C08" => Some(c08::property()),
         "C09" => Some(c09::property()),
+        "C15" => Some(c15::property()),
+        "C19" => Some(c19::property()),
+        "C20" => Some(c20::property()),
         _ => None,
     }
 }
